@@ -248,9 +248,11 @@ def run(ctx):
     nprog, (dmin, dmax) = program_budget(ctx)
     ctx.rule = ("random type-directed programs over {tensordot (all conj flags, outer, @), add, sub, add(amplitudes), transpose (lazy or "
                 "materialised), moveaxis, conj, conj_blocks, flip_signature, neg, scalar mul, trace, vdot, add_leg, remove_leg, copy/clone, "
-                "consume_transpose} on tensors of all 7 symmetries, ranks 0-6, real/complex integer data, random block subsets; ~12% malformed "
+                "consume_transpose, broadcast, apply_mask, diag (all three executed by the Lean model too), element-wise functions, ncon/einsum, fuse; "
+                "ill-defined contractions/traces that must be rejected} on tensors of all 7 symmetries, ranks 0-6, real/complex integer data, random block subsets; ~12% malformed "
                 "steps; after every step real observables == model observables (exact) and == NumPy on dense operands; a program is "
-                "non-trivial if some step result has >=2 blocks; distinct by (sym, policy, op sequence)")
+                "non-trivial if some step result has >=2 blocks; distinct by (sym, policy, op sequence); plus view relations R1/R3 (harness/views.py): the same "
+                "public operation on an operand held with a pending transposition / meta- or hard-fused legs and on its consumed copy agree exactly")
     budget = 50 if ctx.quick else 800
     for it in range(nprog):
         if ctx.elapsed() > budget:
